@@ -84,6 +84,10 @@ func runC16(c *Ctx, r *Report) {
 	r.Rule("C16/wrapper", "the Transport wrapper forwards the configured read size, the same slice and the implementation's results", 3)
 	r.Rule("C16/lock-shape", "implementation reads hold the read lock; the forced close does not; the channel's timeout edge is the forced one", 3)
 	r.Rule("C16/close-no-wait", "Close of each built-in transport calls no wait-for-peer API (Wait, Read, io.Copy ...): closing is what releases a blocked read", 3)
+	r.Rule("C16/read-error-delivered", "(restated from C06/propagate) the channel read loop hands every error of the transport's Read on with a blocking send (or returns it): a peer that goes away is reported to the operation in flight", 1)
+	importObligationsIf(r, func(sub *Report) { runC06(c, sub) }, "C06/propagate", "C16/read-error-delivered", func(construct string) bool {
+		return strings.HasPrefix(construct, "(*channel.Channel).read ")
+	})
 	r.Rule("C16/no-remote-tty", "the system transport starts ssh without -t / -tt / -e / RequestTTY / EscapeChar: the client never interprets the bytes of the session", 1)
 	checkNoRemoteTTY(c, r, "C16/no-remote-tty")
 	r.Rule("C16/system-keepalive", "every ssh argument list of the system transport passes -o ServerAliveInterval=<socket timeout>: the child's keepalive is what releases a pty read when the peer vanishes", 1)
